@@ -629,9 +629,32 @@ func specialFloats(r *wk.Rand, u *refUnits) []float64 {
 	return xs
 }
 
+// c16RebuildUnits passes a units definition through SelfSerialize / UnserializeScope of a scope that uses it.
+func c16RebuildUnits(u *schema.UnitsDefinition) (out *schema.UnitsDefinition) {
+	defer func() {
+		if recover() != nil {
+			out = nil
+		}
+	}()
+	s := schema.NewScopeSchema(schema.NewObjectSchema("R", map[string]*schema.PropertySchema{
+		"q": schema.NewPropertySchema(schema.NewIntSchema(nil, nil, u), nil, false, nil, nil, nil, nil, nil)}))
+	d, err := s.SelfSerialize()
+	if err != nil {
+		return nil
+	}
+	r, err := schema.UnserializeScope(d)
+	if err != nil {
+		return nil
+	}
+	if i, ok := r.Objects()["R"].Properties()["q"].Type().(interface{ Units() *schema.UnitsDefinition }); ok {
+		return i.Units()
+	}
+	return nil
+}
+
 func runC16(c *wk.Ctx) {
 	t := &c16{c}
-	c.Meta("rule", "cases: (a) every integer in [0,200000] x 5 built-in + 3 generated unit sets x {short,long} format->ParseInt; (b) per generated definition (names with regexp metacharacters / prefixes of each other, arbitrary multipliers) and per built-in set: powers of ten +-1, multiplier boundaries +-1, random 63-bit ints, floats with <=6 decimals, generated well-formed strings and near-miss mutants compared with a big-rational reference parser, also through IntSchema/FloatSchema.Unserialize. distinct = hash(units definition, operation, input); every case is non-trivial (a formatted/parsed quantity); evaluations counts individual format/parse checks")
+	c.Meta("rule", "cases: (a) every integer in [0,200000] x 5 built-in + 3 generated unit sets x {short,long} format->ParseInt; (b) per generated definition (names with regexp metacharacters / prefixes of each other, arbitrary multipliers; every third one rebuilt from the description of a schema that uses it, as a client receives it) and per built-in set: powers of ten +-1, multiplier boundaries +-1, random 63-bit ints, floats with <=6 decimals, generated well-formed strings and near-miss mutants compared with a big-rational reference parser, also through IntSchema/FloatSchema.Unserialize. distinct = hash(units definition, operation, input); every case is non-trivial (a formatted/parsed quantity); evaluations counts individual format/parse checks")
 	c.Meta("assumptions", []string{"floats with at most six decimals must come back within 1e-9 relative (the formatter prints %f); floats with more decimals, down to values that print as zero, must come back as a number within 1e-6 absolute",
 		"bare numbers without a unit name, repeated units, fractions on non-base units and leading zeros are unspecified: only 'never a wrong number' is checked for them"})
 	c.Floor("int_roundtrips", 1000)
@@ -672,6 +695,13 @@ func runC16(c *wk.Ctx) {
 			} else {
 				ref, sdk = genUnits(r, fmt.Sprintf("gen-%d", idx))
 				// a fresh built-in-shaped definition is also parsed first, before any format call
+			}
+			if k%3 == 1 {
+				// the same definition as a client receives it: rebuilt from the description of a schema that uses it
+				if rb := c16RebuildUnits(sdk); rb != nil {
+					sdk = rb
+					c.Count("definitions_rebuilt_from_a_description")
+				}
 			}
 			c.Count("definitions")
 			if len(ref.mults) > 0 {
